@@ -1,7 +1,7 @@
 (* Entry point of the extracted runner: [run fn arg].  The Python side finds function
    numbers by parsing the "(* FN name *)" comments below. *)
 From Coq Require Import ZArith List Bool.
-From PyCraft Require Import Base.Res Base.Sx Model.VarInt Model.Versions Model.Position Model.SignedHex Model.Sha1 Model.Tables Model.FieldTypes Model.Nbt Model.Prog Model.CustomPackets Spec.ProtocolTable Model.Frame Model.Aes Model.Cfb8 Model.Rsa Model.Dispatch Model.ExcChain Model.Reactors Model.Negotiate Model.Conc.
+From PyCraft Require Import Base.Res Base.Sx Model.VarInt Model.Versions Model.Position Model.SignedHex Model.Sha1 Model.Tables Model.FieldTypes Model.Nbt Model.Prog Model.CustomPackets Spec.ProtocolTable Model.Frame Model.Aes Model.Cfb8 Model.Rsa Model.Dispatch Model.ExcChain Model.Reactors Model.Negotiate Model.Conc Model.Lifecycle.
 Import ListNotations.
 Open Scope Z_scope.
 
@@ -125,7 +125,7 @@ Definition sx_final (s : sx) : final :=
   match sx_z (sx_nth s 0) with 0 => FNone | 1 => FFalse | _ => FFun (hres_fn (sx_nth s 1)) (sx_bool (sx_nth s 2)) end.
 Definition sx_hook (s : sx) : rhook := match s with I 1 => RConsumed | L [I 2; I e] => RRaises e | _ => RPass end.
 Definition of_call (c : call) : sx := match c with HCall h e r => L [I 0; I h; I e; of_bool r] | FinalCall e r => L [I 1; I e; of_bool r] end.
-Definition of_result (r : result) : sx :=
+Definition of_result (r : ExcChain.result) : sx :=
   L [L (map of_call (r_log r)); of_opt I (r_recorded r); of_bool (r_caught r); of_opt I (r_reraised r); of_bool (r_disconnected r); of_bool (r_consumed r)].
 
 (* ---- login / play sessions ---- *)
@@ -174,6 +174,18 @@ Definition of_wevent (e : wevent) : sx := match e with SendLen p => L [I 0; of_p
 Definition of_conc (s : Conc.st) : sx :=
   L [L (map of_wevent (Conc.wire s)); L (map of_pkt (Conc.queue s)); of_opt of_nat (Conc.lock s); of_bool (Conc.interrupt s); of_bool (Conc.sock_open s);
      of_opt (fun r => L [L (map of_pkt (fst r)); of_opt of_pkt (snd r)]) (parse_wire (Conc.wire s))].
+
+(* ---- lifecycle ---- *)
+Definition sx_action (s : sx) : action :=
+  let t := Z.to_nat (sx_z (sx_nth s 1)) in
+  match sx_z (sx_nth s 0) with
+  | 0 => AConnect (sx_bool (sx_nth s 1)) | 1 => ADisconnect | 2 => ABegin t | 3 => ALeave t | 4 => AFault t | _ => AFinally t
+  end.
+Definition of_lresult (r : Lifecycle.result) : sx := I (match r with RNone => 0 | ROk => 1 | RInvalidState => 2 | RRefused => 3 end).
+Definition of_tstate (s : tstate) : sx := I (match s with TCreated => 0 | TInLoop => 1 | TLeft => 2 | TFinished => 3 end).
+Definition of_lconn (c : Lifecycle.conn) : sx :=
+  L [L (map (fun th => L [of_tstate (nt_state th); of_bool (nt_interrupt th); of_opt of_nat (nt_prev th)]) (Lifecycle.ths c));
+     of_opt of_nat (Lifecycle.cur c); of_opt of_nat (Lifecycle.nxt c); of_bool (Lifecycle.sock c); of_nat (Lifecycle.tcp_count c); of_bool (Lifecycle.active c)].
 
 Definition run (fn : Z) (a : sx) : sx :=
   match fn with
@@ -277,5 +289,8 @@ Definition run (fn : Z) (a : sx) : sx :=
   | 95 => (* FN conc_run : (limit programs schedule) *)
       of_conc (Conc.run_conc (Z.to_nat (sx_z (sx_nth a 0))) (map (fun t => Z.to_nat (sx_z t)) (sx_list (sx_nth a 2)))
                         (Conc.init (map (fun p => map sx_op (sx_list p)) (sx_list (sx_nth a 1)))))
+  | 96 => (* FN lifecycle_run : (actions) -> (results, final state) *)
+      let acts := map sx_action (sx_list (sx_nth a 0)) in
+      L [L (map of_lresult (Lifecycle.results acts Lifecycle.init_conn)); of_lconn (Lifecycle.run_actions acts Lifecycle.init_conn)]
   | _ => L [I 99]
   end.
